@@ -1036,6 +1036,8 @@ class Interp:
                     raise Unsupported("module attribute %s.%s" % (obj.term[1].name, attr))
                 return self.wrap_resolved(st, r)
             if kind == "external":
+                if obj.term[1] == "asyncio" and attr in ("FIRST_COMPLETED", "ALL_COMPLETED", "FIRST_EXCEPTION"):
+                    return self.str_const(st, attr)
                 return Val("Type", ("external", obj.term[1] + "." + attr))
             if kind == "enum":
                 members = REG.enums[obj.term[1]]
@@ -1105,6 +1107,8 @@ class Interp:
             kd = REG.get(clsname)
             if kd.kind != "object":
                 return Val("Fun", ("builtin_method", kd.kind + "." + attr, obj))
+            if clsname == "Task" and attr in ("done", "cancel", "cancelled"):
+                return Val("Fun", ("builtin_method", "task." + attr, obj))
             # LazyProxy forwarding (DESIGN appendix C)
             if "LazyProxy" in kd.ancestors(REG):
                 inner = self.get_attr(st, obj, "obj", node)
